@@ -122,6 +122,11 @@ def run_case(case):
         world["terms"].append(t)
     bus = simbus.Bus(world["terms"])
     choices = list(case["choices"])
+    if dup_pre:
+        # the master's first draw is a leftover address two terminals share
+        twice = [a for a in pre if a and pre.count(a) > 1 and LO <= a <= hi]
+        if twice:
+            choices.insert(0, twice[0] - LO)
     st_ = {"i": 0, "index": 5000, "collisions": 0, "asked": []}
     real_randint = ethercat.randint
 
